@@ -568,7 +568,14 @@ func (bp *baseProcessor) checkHeaderBodyCorrelation(miniBlockHeaders []block.Min
 			return process.ErrHeaderBodyMismatch
 		}
 
+		// each mini block header can be matched by one mini block only
+		delete(mbHashesFromHdr, string(mbHash))
+
 		if mbHdr.TxCount != uint32(len(miniBlock.TxHashes)) {
+			return process.ErrHeaderBodyMismatch
+		}
+
+		if mbHdr.Type != miniBlock.Type {
 			return process.ErrHeaderBodyMismatch
 		}
 
